@@ -231,6 +231,18 @@ where
 {
     const NAME: &'static str = "mstream";
 }
+// (IterInput implements Input but not ValueInput, so none of the value primitives -- any, just, one_of, select --
+// can run on it: it cannot carry the grammar classes of the properties and is not instantiated here)
+// &Graphemes: tokens are extended grapheme clusters, spans byte offsets
+impl Kind<'static> for &'static chumsky::text::Graphemes {
+    const NAME: &'static str = "graph";
+    fn toslice<E: ErrTy<'static, Self>>(p: P<'static, Self, E>) -> Result<P<'static, Self, E>, String> {
+        Ok(p.to_slice().map(|s: &'static chumsky::text::Graphemes| slice_val(s.as_str().as_ptr() as usize, s.as_str().len())).bxd())
+    }
+    fn base(&self) -> (usize, usize) {
+        (self.as_str().as_ptr() as usize, 1)
+    }
+}
 impl<'a, In: ValueInput<'a, Token = char, Span = SSpan> + 'a> Kind<'a> for chumsky::input::WithContext<CSpan, In> {
     const NAME: &'static str = "wctx";
 }
